@@ -73,13 +73,33 @@ def load(ctx=None):
 
 
 def fake_body(symbolic):
-    mk = (lambda n: np.array([S(z3.RealVal(0))] * n, dtype=object)) if symbolic else (lambda n: np.zeros(n))
-    return types.SimpleNamespace(mass=None, ipos=mk(3), inertia=mk(3), iquat=mk(4), fullinertia=mk(6), explicitinertial=True)
+    """stand-in for mjsBody with its defaults: fullinertia undefined (NaN), iquat identity, inertia zero"""
+    mk = lambda n, v: np.array([v] * n, dtype=object) if symbolic else np.full(n, float(v))
+    b = types.SimpleNamespace(mass=None, ipos=mk(3, 0.0), inertia=mk(3, 0.0), iquat=mk(4, 0.0), fullinertia=mk(6, float('nan')), explicitinertial=True)
+    b.iquat[0] = 1.0
+    return b
+
+
+def isnan(c): return isinstance(c, (float, np.floating)) and c != c
 
 
 def full_from_body(body):
+    """the inertia tensor (about the centre of mass, body axes) the compiler derives from the spec body - documented contract of mjCBody: fullinertia, when defined, wins;
+    otherwise R(iquat) diag(inertia) R(iquat)^T"""
     f = body.fullinertia
-    return np.array([[f[0], f[3], f[4]], [f[3], f[1], f[5]], [f[4], f[5], f[2]]], dtype=object if isinstance(f[0], S) else float)
+    sym = any(isinstance(c, S) for c in list(f) + list(np.asarray(body.inertia, dtype=object).ravel()))
+    if not isnan(f[0]):
+        return np.array([[f[0], f[3], f[4]], [f[3], f[1], f[5]], [f[4], f[5], f[2]]], dtype=object if sym else float)
+    q = [c for c in body.iquat]
+    if any(isnan(c) for c in q): return None      # neither representation defined: the compiler rejects the body
+    w_, x, y, z = q
+    Rm = [[1 - 2 * (y * y + z * z), 2 * (x * y - w_ * z), 2 * (x * z + w_ * y)], [2 * (x * y + w_ * z), 1 - 2 * (x * x + z * z), 2 * (y * z - w_ * x)], [2 * (x * z - w_ * y), 2 * (y * z + w_ * x), 1 - 2 * (x * x + y * y)]]
+    d = list(np.asarray(body.inertia, dtype=object).ravel())
+    out = np.empty((3, 3), dtype=object if sym else float)
+    for i in range(3):
+        for j in range(3):
+            out[i, j] = sum(Rm[i][k] * d[k] * Rm[j][k] for k in range(3))
+    return out
 
 
 def theta_of(model, th, ctx):
@@ -115,10 +135,15 @@ def numeric_facts(theta):
     try:
         mm.apply_body_theta_inertia(None, 'b', theta)
         F = full_from_body(body); c = np.asarray(body.ipos, dtype=float)
+        if F is None: raise ValueError('body has neither fullinertia nor inertia/iquat defined')
+        F = np.asarray(F, dtype=float)
         mm.inertia_to_fullinertia = lambda q, inertia: F
         pi2 = mm.pi_from_body(None, 'b')
         out['apply_extract_err'] = float(np.max(np.abs(pi2 - pi))); out['com_err'] = float(np.max(np.abs(c * pi[0] - pi[1:4])))
         out['centroidal_moments'] = np.linalg.eigvalsh(F).tolist()
+        Ib = pi[4:].reshape(3, 3); cc = float(c @ c)
+        ref = Ib - pi[0] * (cc * np.eye(3) - np.outer(c, c))
+        out['inertia_rel_err'] = float(np.max(np.abs(F - ref)) / max(np.max(np.abs(ref)), 1e-300))
     except Exception as e:
         out['apply_extract_err'] = float('inf'); out['apply_exc'] = repr(e)
     return out
@@ -192,7 +217,11 @@ def unit_roundtrip(tier):
     dec = lambda m: {n: str(m.eval(t, model_completion=True)) for n, t in zip(NAMES, th)} | {'exp': {k: str(m.eval(e, model_completion=True)) for k, (x, e) in ctx.exps.items()}}
     ck.prove('theta_from_pseudoinertia returns 10 entries', [], z3.BoolVal(th2.shape == (10,)), site='theta_from_pseudoinertia:shape')
     for i, n in enumerate(NAMES):
-        ck.prove('recovered %s equals the input' % n, cons, R(th2[i]) == th[i], site='roundtrip:%s' % n, decode=dec,
+        # replay-friendly counterexamples: a visible difference (1e-3 absolute, or 1% in the argument of the logarithm)
+        t2 = R(th2[i]); arg = [y for (y, l) in ctx.logs if l.eq(t2)]
+        if arg: pref = [z3.Or(*[z3.Or(arg[0] >= z3.RealVal('101/100') * e, arg[0] <= z3.RealVal('99/100') * e) for (x, e) in ctx.exps.values() if x.eq(th[i])])]
+        else: pref = [z3.Or(t2 - th[i] >= z3.RealVal('1/1000'), th[i] - t2 >= z3.RealVal('1/1000'))]
+        ck.prove('recovered %s equals the input' % n, cons, R(th2[i]) == th[i], site='roundtrip:%s' % n, decode=dec, prefer=pref,
                  replay=make_replay(th, ctx, lambda f: not (f['roundtrip_err'] <= 1e-6 * max(1.0, max(abs(v) for v in f['theta'])))))
     ck.reach('contracts satisfiable (cholesky factor exists)', cons)
     return ck
@@ -201,38 +230,50 @@ def unit_roundtrip(tier):
 def unit_apply(tier):
     ck = Checker('apply_body', tier, timeout_s=90, semantics='real')
     ctx, mm, th, theta = setup()
-    body = fake_body(True)
-    mm._infer_inertial = lambda spec, name: body
-    pi = mm.pi_from_theta(theta)
-    mm.apply_body_theta_inertia(None, 'b', theta)
     ck.functions |= {'apply_body_theta_inertia', 'pi_from_theta', 'skew', 'pi_from_body'}
     dec = lambda m: {n: str(m.eval(t, model_completion=True)) for n, t in zip(NAMES, th)} | {'exp': {k: str(m.eval(e, model_completion=True)) for k, (x, e) in ctx.exps.items()}}
-    bad_apply = lambda f: not (f['apply_extract_err'] <= 1e-6 * max(1.0, abs(f['mass']), max(abs(v) for v in f['principal_moments'])) and f['com_err'] <= 1e-6 * max(1.0, abs(f['mass'])))
+    # replay threshold: well above double rounding (1e-16) and far below any modelling-level discrepancy; it is only consulted for inputs on which the solver already found the symbolic claim violated
+    bad_apply = lambda f: not (f['apply_extract_err'] <= 1e-11 * max(abs(f['mass']), max(abs(v) for v in f['principal_moments'])) and f['com_err'] <= 1e-11 * max(1.0, abs(f['mass'])) and f.get('inertia_rel_err', 1.0) <= 1e-11)
     rp = make_replay(th, ctx, bad_apply)
-    ck.prove('body.mass is pi[0]', ctx.cons, R(body.mass) == R(pi[0]), site='apply_body_theta_inertia:mass', decode=dec, replay=rp)
-    c = [R(v) for v in body.ipos]
-    ck.prove('body.ipos is the centre of mass h/m', ctx.cons, z3.And(*[c[i] * R(pi[0]) == R(pi[1 + i]) for i in range(3)]), site='apply_body_theta_inertia:ipos', decode=dec, replay=rp)
-    ck.prove('diagonal inertia zeroed so that the compiler uses fullinertia', [], z3.BoolVal(all(isinstance(v, (int, float)) and v == 0 or (isinstance(v, S) and z3.is_true(z3.simplify(v.t == 0))) for v in body.inertia)),
-             site='apply_body_theta_inertia:inertia-zero')
-    ck.prove('iquat set to NaN (undefined orientation => fullinertia is used)', [], z3.BoolVal(all(isinstance(v, float) and v != v for v in body.iquat)), site='apply_body_theta_inertia:iquat-nan')
-    # parallel-axis reference: I_com = I_origin - m (|c|^2 1 - c c^T)
-    Ib = pi[4:].reshape(3, 3); m = R(pi[0]); F = full_from_body(body)
-    cc = c[0] * c[0] + c[1] * c[1] + c[2] * c[2]
-    ref = [[R(Ib[i, j]) - m * ((cc if i == j else 0) - c[i] * c[j]) for j in range(3)] for i in range(3)]
-    ck.prove('fullinertia (M11,M22,M33,M12,M13,M23) is the origin inertia moved to the centre of mass', ctx.cons, z3.And(*[R(F[i, j]) == ref[i][j] for i in range(3) for j in range(3)]), site='apply_body_theta_inertia:parallel-axis', decode=dec, replay=rp)
-    x = [z3.Real('x%d' % i) for i in range(3)]
-    tr = R(F[0, 0]) + R(F[1, 1]) + R(F[2, 2])
-    q = sum(x[i] * x[j] * ((tr / 2 if i == j else 0) - R(F[i, j])) for i in range(3) for j in range(3))
-    def cent_bad(f):
-        a, b, c_ = f['centroidal_moments']; s = max(1.0, abs(c_)); return a <= TOL * s or a + b <= c_ + TOL * s
-    ck.prove('centroidal inertia compiles: principal moments positive and satisfy the triangle inequalities', ctx.cons + [z3.Or(*[xi != 0 for xi in x])], q > 0, site='apply_body_theta_inertia:centroidal-physical', decode=dec,
-             replay=make_replay(th, ctx, cent_bad), timeout_s=120)
-    # extraction from the (compiled) body gives back the same pi: compiler contract R diag(inertia) R^T == fullinertia
-    mm.inertia_to_fullinertia = lambda q_, inertia: F
-    pi2 = mm.pi_from_body(None, 'b')
-    ck.prove('pi_from_body(apply_body_theta_inertia(theta)) == pi_from_theta(theta)', ctx.cons, z3.And(*[R(a) == R(b) for a, b in zip(pi2, pi)]) if pi2.shape == pi.shape else z3.BoolVal(False),
-             site='apply_body_theta_inertia:extract', decode=dec, replay=rp)
-    ck.reach('contracts satisfiable', ctx.cons)
+    def run():
+        body = fake_body(True)
+        mm._infer_inertial = lambda spec, name: body
+        pi = mm.pi_from_theta(theta)
+        mm.apply_body_theta_inertia(None, 'b', theta)
+        return body, pi
+    npaths = 0
+    for pc, (body, pi), eng in pysym.explore(run, base=ctx.cons):
+        npaths += 1; ck.queries += eng.nq
+        cons = ctx.cons + pc
+        ck.prove('body.mass is pi[0]', cons, R(body.mass) == R(pi[0]), site='apply_body_theta_inertia:mass', decode=dec, replay=rp)
+        c = [R(v) for v in body.ipos]
+        ck.prove('body.ipos is the centre of mass h/m', cons, z3.And(*[c[i] * R(pi[0]) == R(pi[1 + i]) for i in range(3)]), site='apply_body_theta_inertia:ipos', decode=dec, replay=rp)
+        F = full_from_body(body)
+        ck.prove('the body defines its inertia (fullinertia, or inertia with a defined iquat)', cons, z3.BoolVal(F is not None), site='apply_body_theta_inertia:defined', decode=dec, replay=rp)
+        if F is None: continue
+        # parallel-axis reference: I_com = I_origin - m (|c|^2 1 - c c^T)
+        Ib = pi[4:].reshape(3, 3); m = R(pi[0])
+        cc = c[0] * c[0] + c[1] * c[1] + c[2] * c[2]
+        ref = [[R(Ib[i, j]) - m * ((cc if i == j else 0) - c[i] * c[j]) for j in range(3)] for i in range(3)]
+        # a counterexample convenient to replay: relative error of some entry at least 1e-3 of the largest moment
+        big = [z3.Or(*[(R(F[i, j]) - ref[i][j]) * (R(F[i, j]) - ref[i][j]) >= z3.RealVal('1/1000000') * ref[k][k] * ref[k][k] for i in range(3) for j in range(3)]) for k in range(3)]
+        ck.prove('compiled inertia (fullinertia in the order M11,M22,M33,M12,M13,M23, or R diag(inertia) R^T) is the origin inertia moved to the centre of mass', cons, z3.And(*[R(F[i, j]) == ref[i][j] for i in range(3) for j in range(3)]),
+                 site='apply_body_theta_inertia:parallel-axis', decode=dec, replay=rp, prefer=[z3.And(*big)])
+        x = [z3.Real('x%d' % i) for i in range(3)]
+        tr = R(F[0, 0]) + R(F[1, 1]) + R(F[2, 2])
+        q = sum(x[i] * x[j] * ((tr / 2 if i == j else 0) - R(F[i, j])) for i in range(3) for j in range(3))
+        def cent_bad(f):
+            a, b, c_ = f['centroidal_moments']; s_ = max(abs(c_), 1e-300); return a <= TOL * s_ or a + b <= c_ + TOL * s_
+        ck.prove('centroidal inertia compiles: principal moments positive and satisfy the triangle inequalities', cons + [z3.Or(*[xi != 0 for xi in x])], q > 0, site='apply_body_theta_inertia:centroidal-physical', decode=dec,
+                 replay=make_replay(th, ctx, cent_bad), timeout_s=120)
+        # extraction from the (compiled) body gives back the same pi
+        mm._infer_inertial = lambda spec, name, body=body: body
+        mm.inertia_to_fullinertia = lambda q_, inertia, F=F: F
+        pi2 = mm.pi_from_body(None, 'b')
+        ck.prove('pi_from_body(apply_body_theta_inertia(theta)) == pi_from_theta(theta)', cons, z3.And(*[R(a) == R(b) for a, b in zip(pi2, pi)]) if pi2.shape == pi.shape else z3.BoolVal(False),
+                 site='apply_body_theta_inertia:extract', decode=dec, replay=rp, prefer=[z3.And(*big)])
+        ck.reach('path %d reachable' % npaths, cons)
+    ck.notes.append('paths through apply_body_theta_inertia: %d' % npaths)
     return ck
 
 
